@@ -25,7 +25,10 @@ RULE_ADDED = (
               'Also: device data that looks like framing (status words, headers, padding); histories '
               'of state-changing operations (advance total / partial / refused, ancestor update, '
               'reset, link failure + other device) followed by the queries again; an exchange '
-              "answered later than the host's time-out ")
+              "answered later than the host's time-out "
+              ' '
+              'Round 8: uiHeartbeat transitions with the first or second re-connection of the d'
+              'ialogue finding no device; device data beginning like key-encoding markers. ')
 RULE = RULE + " " + RULE_ADDED.strip()
 ASSUMPTIONS = [
     "simulated device + fake HID/TCP transports are trusted; firmware selectors are parsed "
